@@ -1,8 +1,15 @@
 #!/bin/sh
-# usage: bin/seedcheck.sh <name> <worktree-of-repo-with-a-change-applied> <ID> [<ID> ...]
-# runs the quick checks of the listed properties against that worktree (never against /repo), logs to work/seed_<name>_<ID>.log
+# usage: bin/seedcheck.sh <name> <patch.diff | dir containing patch.diff> <ID> [<ID> ...]
+# Applies the seeded change to a fresh scratch worktree of /repo's HEAD (never to /repo itself), runs the quick
+# checks of the listed properties against it with a private copy of the harness, logs to
+# work/seed_<name>_<ID>.log, and removes the worktree, the harness copy and their build output.
 set -e
-n="$1"; wt="$2"; shift 2
+n="$1"; p="$2"; shift 2
+[ -d "$p" ] && p="$p/patch.diff"
+wt=/tmp/sc_$n
+git -C /repo worktree remove --force $wt 2>/dev/null || true; rm -rf $wt /tmp/h_$n
+git -C /repo worktree add --detach $wt HEAD > /dev/null 2>&1
+git -C $wt apply "$p"
 mkdir -p /tmp/h_$n
 rsync -a --delete --exclude target /verif/harness/ /tmp/h_$n/
 sed -i "s#path = \"/repo/quizx\"#path = \"$wt/quizx\"#" /tmp/h_$n/Cargo.toml
@@ -11,3 +18,5 @@ for id in "$@"; do
   (cd /verif && VERIF_ALL_PLANS=1 VERIF_HARNESS_DIR=/tmp/h_$n bin/check $id quick > /verif/work/seed_${n}_$id.log 2>&1; echo "rc=$?" >> /verif/work/seed_${n}_$id.log) || true
   tail -n 3 /verif/work/seed_${n}_$id.log
 done
+git -C /repo worktree remove --force $wt 2>/dev/null || true
+rm -rf $wt /tmp/h_$n /verif/work/mut_h_$n
